@@ -16,6 +16,14 @@ ann = json.load(open(os.path.join(ROOT, "seeded", "annotations.json")))
 taken = [(k, v) for k, v in sorted(ann.items()) if k.split("-")[0] == pid]
 
 FOCUS = {
+    "10": """This is a SHORT round with a TIME LIMIT: deliver ONE change only (directory ...-r10-1) and finish within about 30 minutes of
+work; do not write a remarks file unless you stumble over something. Prefer what no earlier round touched: look at the
+list of taken ideas, find the source file, function or code path of this property that NONE of them modified, and plant
+the change there; or a change whose effect shows only on the SECOND use of something (second message, second connection,
+second call after an error, a value reused from a pool), or only for one of the two roles, or only through one of the
+less used entry points (Reader/Writer instead of Read/Write, NetConn, wsjson, CloseRead, io.Copy, Ping from two
+goroutines). The best changes are those where the obvious test (one connection, one message, default options, the
+library talking to itself) stays green.""",
     "9": """This is a SHORT round: deliver ONE change only (directory ...-r9-1), the best you can find, and spend the rest of your effort
 on the remarks file. For the change, prefer what no earlier round touched: look at the list of taken ideas, find the source
 file, function or code path of this property that NONE of them modified, and plant the change there; or combine this
